@@ -292,7 +292,7 @@ def hyp_shard(rec, shard):
 
 
 def main(ctx):
-    n = 320 if ctx.tier == 'quick' else 4000
+    n = 320 if ctx.tier == 'quick' else 32000
     w = 8 if ctx.tier == 'quick' else 16
     ctx.pmap('hyp_shard', [(k, n // w) for k in range(w)])
     for a in ('utf-8', 'utf-16', 'cp1252'):
